@@ -16,7 +16,11 @@ import (
 	"google.golang.org/protobuf/proto"
 	"google.golang.org/protobuf/types/known/durationpb"
 
+	"github.com/smart-core-os/sc-api/go/traits"
 	"github.com/smart-core-os/sc-golang/pkg/resource"
+	"github.com/smart-core-os/sc-golang/pkg/trait/enterleavesensorpb"
+	"github.com/smart-core-os/sc-golang/pkg/trait/publicationpb"
+	"github.com/smart-core-os/sc-golang/pkg/trait/vendingpb"
 )
 
 // P is a message: durationpb.Duration{Seconds: A, Nanos: B} (two fields, so that an update mask can select
@@ -42,6 +46,20 @@ func (p P) msg() *durationpb.Duration { return &durationpb.Duration{Seconds: p.A
 // Op is one call of a writer.
 //
 //	K="u": Collection.Update(id, …)   K="v": Value.Set(…) (model id 9)   K="d": Collection.Delete(id, …)
+//
+// and read-modify-write callers of the write path that live in the trait packages (their change functions are
+// the library's own, not the harness'):
+//
+//	K="x": vendingpb.Model.DispenseInstantly(stock i7, quantity k): F="x<k>", the message a.b is used.remaining
+//	       (model id 7: an Update without create-if-absent whose interceptor computes used+k, max(0, remaining-k))
+//	K="e": enterleavesensorpb.Model.CreateEnterLeaveEvent(ENTER | LEAVE): F="a1" | "b1", the message a.b is
+//	       enter_total.leave_total (model id 6: a Value.Set whose interceptor adds one to the direction's total)
+//	K="p": publicationpb.ModelServer.UpdatePublication(body k, version of the body Expect.A — "" without Expect):
+//	       F="s<k>.0", the message a.0 is the publication with body a (model id 5: an Update whose expected value
+//	       is the version's body: the version is a hash of the content; frozen clock only, the publish time is
+//	       then the same in every message)
+//	K="q": publicationpb.ModelServer.DeletePublication(version of the body Expect.A, allow_missing AM) (a Delete
+//	       of model id 5 with that expected value)
 type Op struct {
 	K      string `json:"k"`
 	ID     int    `json:"id"`
@@ -63,6 +81,14 @@ type Op struct {
 }
 
 const valueID = 9
+const vendID = 7  // the stock record of the vending model
+const enterID = 6 // the Value of the enter-leave model
+
+// trait: the call goes through a trait model's own read-modify-write caller
+const pubID = 5 // the publication of the publication model
+
+func (o Op) trait() bool { return o.K == "x" || o.K == "e" || o.K == "p" || o.K == "q" }
+
 const genBase = 100 // model ids of generated ids: genBase + 10*candidate + try
 
 type Scenario struct {
@@ -128,7 +154,7 @@ func (o Op) mask() string {
 // eff is the call as the merge sees it on a resource whose writable fields are restricted to one field: whatever
 // the update mask says (it can only name that field), exactly that field is taken from the written message.
 func (o Op) eff(writable string) Op {
-	if writable != "" && o.K != "d" {
+	if writable != "" && o.K != "d" && !o.trait() {
 		o.Mask = writable
 	}
 	return o
@@ -146,14 +172,29 @@ func (o Op) encode() string {
 		return fmt.Sprintf("u/%d/V/0/0/%s/%s/%s/%s/%s", valueID, optP(o.Expect), o.check(), o.F, o.mask(), optI(o.WT))
 	case "d":
 		return fmt.Sprintf("d/%d/%s/%s/%s", o.ID, b01(o.AM), optP(o.Expect), o.check())
+	case "x":
+		return fmt.Sprintf("u/%d/C/0/0/-/n/%s/-/-", vendID, o.F)
+	case "e":
+		return fmt.Sprintf("u/%d/V/0/0/-/n/%s/-/-", enterID, o.F)
+	case "p":
+		return fmt.Sprintf("u/%d/C/0/0/%s/n/%s/-/-", pubID, optP(o.Expect), o.F)
+	case "q":
+		return fmt.Sprintf("d/%d/%s/%s/n", pubID, b01(o.AM), optP(o.Expect))
 	}
 	return "?"
 }
 
 // target is the id a call works on; a generate-id call has none before it ran (-1).
 func (o Op) target() int {
-	if o.K == "v" {
+	switch o.K {
+	case "v":
 		return valueID
+	case "x":
+		return vendID
+	case "e":
+		return enterID
+	case "p", "q":
+		return pubID
 	}
 	if o.Gen {
 		return -1
@@ -287,6 +328,11 @@ type world struct {
 	val  *resource.Value
 	clk  *clock
 	rng  *scriptRNG
+	// trait models (built only for scenarios that use them)
+	vend  *vendingpb.Model
+	enter *enterleavesensorpb.Model
+	pub   *publicationpb.ModelServer
+	pubM  *publicationpb.Model
 
 	// calls made from inside callbacks, in the order they ran
 	mu     sync.Mutex
@@ -317,21 +363,112 @@ func newWorld(sc Scenario, free bool) *world {
 		v := sc.Init[strconv.Itoa(id)]
 		if id == valueID {
 			vopts = append(vopts, resource.WithInitialValue(v.msg()))
+		} else if id == vendID || id == enterID || id == pubID {
+			continue
 		} else {
 			copts = append(copts, resource.WithInitialRecord(idName(id), v.msg()))
 		}
 	}
 	w.coll = resource.NewCollection(copts...)
 	w.val = resource.NewValue(vopts...)
+	if sc.usesTrait("x") {
+		topts := []resource.Option{resource.WithClock(w.clk)}
+		if v, ok := sc.Init[strconv.Itoa(vendID)]; ok {
+			topts = append(topts, vendingpb.WithInitialStock(stockMsg(v)))
+		}
+		w.vend = vendingpb.NewModel(topts...)
+	}
+	if sc.usesTrait("e") {
+		v := sc.Init[strconv.Itoa(enterID)]
+		a, b := int32(v.A), int32(v.B)
+		w.enter = enterleavesensorpb.NewModel(resource.WithClock(w.clk),
+			enterleavesensorpb.WithInitialEnterLeaveEvent(&traits.EnterLeaveEvent{EnterTotal: &a, LeaveTotal: &b}))
+	}
+	if sc.usesTrait("p") || sc.usesTrait("q") {
+		// the versions the writers will quote, minted now: not from inside a controlled thread
+		for _, p := range sc.Progs {
+			for _, o := range p {
+				if o.trait() && o.Expect != nil {
+					versionOf(o.Expect.A)
+				}
+			}
+		}
+		w.pubM = publicationpb.NewModel(resource.WithClock(w.clk))
+		w.pub = publicationpb.NewModelServer(w.pubM)
+		if v, ok := sc.Init[strconv.Itoa(pubID)]; ok {
+			// created through the server, which mints the version (the constructor's clock instant is 0 as well)
+			if _, err := w.pub.CreatePublication(context.Background(), &traits.CreatePublicationRequest{Publication: pubMsg(v.A)}); err != nil {
+				panic("c02: CreatePublication: " + err.Error())
+			}
+		}
+	}
 	if free {
 		w.clk.n.Store(0)
 	}
 	return w
 }
 
+// usesTrait: some call of the scenario is of kind k (the enter-leave model always holds a value: a scenario that
+// uses it always lists it in Init)
+func (sc Scenario) usesTrait(k string) bool {
+	for _, p := range sc.Progs {
+		for _, o := range p {
+			if o.K == k {
+				return true
+			}
+		}
+	}
+	return false
+}
+
+func pubMsg(body int64) *traits.Publication {
+	return &traits.Publication{Id: idName(pubID), Body: []byte(strconv.FormatInt(body, 10))}
+}
+
+var versions sync.Map // body -> the version the publication model mints for it
+
+// versionOf asks a scratch publication model for the version of the publication with this body (a function of the
+// content, whatever the hash is)
+func versionOf(body int64) string {
+	if v, ok := versions.Load(body); ok {
+		return v.(string)
+	}
+	srv := publicationpb.NewModelServer(publicationpb.NewModel())
+	p, err := srv.CreatePublication(context.Background(), &traits.CreatePublicationRequest{Publication: pubMsg(body)})
+	if err != nil {
+		panic("c02: versionOf: " + err.Error())
+	}
+	versions.Store(body, p.Version)
+	return p.Version
+}
+
+func stockMsg(v P) *traits.Consumable_Stock {
+	return &traits.Consumable_Stock{Consumable: idName(vendID),
+		Used:      &traits.Consumable_Quantity{Amount: float32(v.A)},
+		Remaining: &traits.Consumable_Quantity{Amount: float32(v.B)}}
+}
+
 func msgVal(m proto.Message) (P, bool) {
 	if m == nil {
 		return P{}, false
+	}
+	switch t := m.(type) {
+	case *traits.Consumable_Stock:
+		if t == nil {
+			return P{}, false
+		}
+		return P{int64(t.GetUsed().GetAmount()), int64(t.GetRemaining().GetAmount())}, true
+	case *traits.EnterLeaveEvent:
+		if t == nil {
+			return P{}, false
+		}
+		return P{int64(t.GetEnterTotal()), int64(t.GetLeaveTotal())}, true
+	case *traits.Publication:
+		if t == nil {
+			return P{}, false
+		}
+		n, _ := strconv.ParseInt(string(t.GetBody()), 10, 64)
+		return P{n, 0}, true
 	}
 	w, ok := m.(*durationpb.Duration)
 	if !ok || w == nil {
@@ -485,6 +622,44 @@ func (w *world) exec(o Op, genID *int) string {
 		_, opts := w.writeOpts(o, genID)
 		m, err := w.coll.Delete(idName(o.ID), opts...)
 		return canon(m, err)
+	case "x":
+		k, _ := strconv.ParseInt(o.F[1:], 10, 64)
+		m, err := w.vend.DispenseInstantly(idName(vendID), &traits.Consumable_Quantity{Amount: float32(k)})
+		if m == nil {
+			return canon(nil, err)
+		}
+		return canon(m, err)
+	case "p":
+		var p P
+		_ = p.UnmarshalText([]byte(o.F[1:]))
+		req := &traits.UpdatePublicationRequest{Publication: pubMsg(p.A)}
+		if o.Expect != nil {
+			req.Version = versionOf(o.Expect.A)
+		}
+		m, err := w.pub.UpdatePublication(context.Background(), req)
+		if m == nil {
+			return canon(nil, err)
+		}
+		return canon(m, err)
+	case "q":
+		req := &traits.DeletePublicationRequest{Id: idName(pubID), AllowMissing: o.AM}
+		if o.Expect != nil {
+			req.Version = versionOf(o.Expect.A)
+		}
+		m, err := w.pub.DeletePublication(context.Background(), req)
+		if m == nil {
+			return canon(nil, err)
+		}
+		return canon(m, err)
+	case "e":
+		ev := &traits.EnterLeaveEvent{Direction: traits.EnterLeaveEvent_ENTER}
+		if o.F[0] == 'b' {
+			ev.Direction = traits.EnterLeaveEvent_LEAVE
+		}
+		// the call reports no value: the message it wrote is taken from an InterceptAfter of the caller's own
+		var wrote proto.Message
+		err := w.enter.CreateEnterLeaveEvent(ev, resource.InterceptAfter(func(old, new proto.Message) { wrote = proto.Clone(new) }))
+		return canon(wrote, err)
 	}
 	return "?"
 }
@@ -518,7 +693,90 @@ func (w *world) contents() (map[int]P, map[int]int64) {
 		}
 		cancel()
 	}
+	if w.vend != nil {
+		if n := len(w.vend.ListInventory()); n > 0 {
+			ctx, cancel := context.WithCancel(context.Background())
+			ch := w.vend.PullInventory(ctx)
+			for i := 0; i < n; i++ {
+				select {
+				case ev := <-ch:
+					v, _ := msgVal(ev.NewValue)
+					vals[idOf(ev.ID)] = v
+					stamps[idOf(ev.ID)] = ev.ChangeTime.Unix()
+				case <-time.After(10 * time.Second):
+					panic("c02: no seed event from PullInventory")
+				}
+			}
+			cancel()
+		}
+	}
+	if w.pubM != nil {
+		if n := len(w.pubM.ListPublications()); n > 0 {
+			ctx, cancel := context.WithCancel(context.Background())
+			ch := w.pubM.PullPublications(ctx)
+			for i := 0; i < n; i++ {
+				select {
+				case ev := <-ch:
+					v, _ := msgVal(ev.NewValue)
+					vals[idOf(ev.ID)] = v
+					stamps[idOf(ev.ID)] = ev.ChangeTime.Unix()
+				case <-time.After(10 * time.Second):
+					panic("c02: no seed event from PullPublications")
+				}
+			}
+			cancel()
+		}
+	}
+	if w.enter != nil {
+		ctx, cancel := context.WithCancel(context.Background())
+		select {
+		case ev := <-w.enter.PullEnterLeaveEvents(ctx):
+			v, _ := msgVal(ev.Value)
+			vals[enterID] = v
+			stamps[enterID] = ev.ChangeTime.Unix()
+		case <-time.After(10 * time.Second):
+			panic("c02: no seed event from PullEnterLeaveEvents")
+		}
+		cancel()
+	}
 	return vals, stamps
+}
+
+// snapshot: a fingerprint of what every resource holds right now, through plain reads (hooked runs take one after
+// every step): the records in id order, the Value, the stock records, the enter-leave totals.
+func (w *world) snapshot() string {
+	var sb strings.Builder
+	show := func(m proto.Message) {
+		if v, ok := msgVal(m); ok {
+			sb.WriteString(v.String())
+		} else {
+			sb.WriteString("nil")
+		}
+		sb.WriteByte(' ')
+	}
+	for _, m := range w.coll.List() {
+		show(m)
+	}
+	sb.WriteString("| ")
+	show(w.val.Get())
+	if w.vend != nil {
+		sb.WriteString("| ")
+		for _, m := range w.vend.ListInventory() {
+			show(m)
+		}
+	}
+	if w.enter != nil {
+		sb.WriteString("| ")
+		m, _ := w.enter.GetEnterLeaveEvent()
+		show(m)
+	}
+	if w.pubM != nil {
+		sb.WriteString("| ")
+		for _, m := range w.pubM.ListPublications() {
+			show(m)
+		}
+	}
+	return sb.String()
 }
 
 func sortedIDs[V any](c map[int]V) []int {
@@ -562,6 +820,13 @@ func (o Op) written(old P) P {
 	case 'b':
 		k, _ := strconv.ParseInt(o.F[1:], 10, 64)
 		v.B += k
+	case 'x': // a dispense of k: used grows by k, remaining shrinks by k but not below zero
+		k, _ := strconv.ParseInt(o.F[1:], 10, 64)
+		v.A += k
+		v.B -= k
+		if v.B < 0 {
+			v.B = 0
+		}
 	}
 	switch o.Mask {
 	case "a":
@@ -587,10 +852,21 @@ func specApply(st map[int]P, o Op, genID int) string {
 		id = genID
 	}
 	cur, present := st[id]
-	switch o.K {
+	kind := o.K
+	switch kind {
+	case "x": // DispenseInstantly: an Update of the stock record, which must exist
+		kind = "u"
+	case "e": // CreateEnterLeaveEvent: a Set of the model's Value
+		kind = "v"
+	case "p": // UpdatePublication with a version: an Update of the record, which must exist, expecting the version's body
+		kind = "u"
+	case "q":
+		kind = "d"
+	}
+	switch kind {
 	case "u", "v":
 		old, oldPresent := cur, present
-		if o.K == "u" {
+		if kind == "u" {
 			if present && (o.EA || o.Gen) {
 				if o.Gen {
 					return "invalid: generated id already in use"
@@ -643,6 +919,9 @@ type HOp struct {
 	Resp  int64
 	Res   string
 	GenID int // id reported through WithIDCallback (-1: none)
+	// Fault: the call reported that its publication failed (family send-timeout): whatever the error says, the
+	// write may be in place or not - but atomically, at one instant inside the call's interval
+	Fault bool
 }
 
 func lostRace(res string) bool { return res == "err:Aborted" || res == "err:Unavailable" }
@@ -653,7 +932,7 @@ func lostRace(res string) bool { return res == "err:Aborted" || res == "err:Unav
 func linearizable(init map[int]P, hist []HOp, final map[int]P) (bool, []int) {
 	var ops []HOp
 	for _, h := range hist {
-		if !lostRace(h.Res) {
+		if !lostRace(h.Res) || h.Fault {
 			ops = append(ops, h)
 		}
 	}
@@ -691,7 +970,18 @@ func linearizable(init map[int]P, hist []HOp, final map[int]P) (bool, []int) {
 			for k, v := range st {
 				st2[k] = v
 			}
-			if specApply(st2, ops[i].Op, ops[i].GenID) != ops[i].Res {
+			if ops[i].Fault {
+				// no effect at all ...
+				order = append(order, i)
+				if rec(mask|1<<i, st2) {
+					return true
+				}
+				order = order[:len(order)-1]
+				// ... or the effect of the write, at this instant
+				if !strings.HasPrefix(specApply(st2, ops[i].Op, ops[i].GenID), "ok:") {
+					continue
+				}
+			} else if specApply(st2, ops[i].Op, ops[i].GenID) != ops[i].Res {
 				continue
 			}
 			order = append(order, i)
